@@ -216,4 +216,21 @@ PROPS = {
         level_note="Trusted: Lean kernel; msgpack stream framing and TCP behaviour are exercised, not proved (all-or-nothing at byte level is an enumeration).",
         engine="step-harness+codec-harness",
     ),
+    "C19": dict(
+        lean_modules=["Swim.Model.Acks", "Swim.Props.C19"],
+        tests="^TestC19$",
+        rule=("virtual-time scripts (testing/synctest) on a real node with a capturing transport: (probe) probeNode against a target with 0-4 relays "
+              "of mixed protocol versions, IndirectChecks 0/1/3, initial health score 0-3, AwarenessMaxMultiplier 1/2/8, TCP fallback off / refused / "
+              "answering / answering with a wrong sequence number, and up to 5 injected acks and nacks with own or foreign sequence numbers placed before "
+              "the probe timeout, before the deadline, 1-3 ms either side of the deadline and long after; (relay) handleIndirectPing with the target's "
+              "ack in time / late / foreign / duplicated / absent, nack requested or not; (score) random delta sequences; non-trivial = 2+ injected events"),
+        trusted_base=COMMON_TB + ["Go timers and channels under testing/synctest; events at exactly equal instants are avoided by the generator",
+                                  "kRandomNodes' choice of relays is observed (expected nacks are counted from the indirect pings actually sent)"],
+        assumptions=["processing time is zero in virtual time", "the window between map insertion and timer assignment in setAckHandler is below the model's granularity"],
+        level_text=("Proof (partial on timing): answered-iff-own-ack-before-deadline, foreign/late acks and nacks are no-ops, score always within "
+                    "[0,max-1] and moving only for the stated causes over every delta sequence, relay sends exactly one ack or (iff requested) one nack "
+                    "(Lean). Tied by exact virtual-time scripts on the real probeNode / handleIndirectPing / awareness code."),
+        level_note="Partial: goroutine scheduling order at equal instants and real network timing are not modelled; observed only in virtual time.",
+        engine="synctest-harness",
+    ),
 }
